@@ -618,7 +618,8 @@ def minimize_lbfgsb(
                         jac=grad,
                         nfev=sf.nfev,
                         njev=sf.ngev,
-                        nit=istate.nit,
+                        # this iteration is complete: same count as a run stopped here
+                        nit=istate.nit + 1,
                         status=istate.warnflag,
                         message=istate.task_str,
                         x=x,
